@@ -34,8 +34,8 @@ TRUSTED = ["harness/h_C05.cpp: builds the shortest well-formed message pad4z(add
            "arg_matcher and Port_Matcher::rtosc_match_args",
            "tools/props/C05.py: the Python Spec oracle (backtracking over the pattern AST; generative "
            "enumeration of a pattern's language for the sweeps)"]
-ASSUMPTIONS = ["address NUL-free and without ':' (ports.h:193); every digit run of the address and every N has at "
-               "most 9 digits (atoi); pattern of the documented form (wf_pat in coq/Match/PatSpec.v): literals "
+ASSUMPTIONS = ["address NUL-free and without ':' (ports.h:193); every N of a pattern has at "
+               "most 9 digits; pattern of the documented form (wf_pat in coq/Match/PatSpec.v): literals "
                "without NUL : { * #, text after '#N' does not start with a digit, alternatives without NUL , }"]
 
 # ---------------------------------------------------------------------------
@@ -52,6 +52,8 @@ def render_segs(segs):
             out += v
         elif k == "E":
             out += b"#" + v
+        elif k == "S":
+            out += b"*"
         else:
             out += b"{" + b",".join(v) + b"}"
     return out
@@ -67,7 +69,7 @@ def enc_ast(ast):
     segs, sub, types = ast
     ss = []
     for k, v in segs:
-        ss.append(k + (",".join(hx(a) for a in v) if k == "A" else hx(v)))
+        ss.append(k + (",".join(hx(a) for a in v) if k == "A" else ("" if k == "S" else hx(v))))
     return "%s;%s;%s" % (".".join(ss) if ss else "_", "S" if sub else "N",
                          "-" if types is None else "T" + ",".join(hx(t) for t in types))
 
@@ -76,7 +78,9 @@ def dec_ast(s):
     segs = []
     if a != "_":
         for e in a.split("."):
-            if e[0] == "A":
+            if e[0] == "S":
+                segs.append(("S", b""))
+            elif e[0] == "A":
                 segs.append(("A", [unhx(x) for x in e[1:].split(",")]))
             else:
                 segs.append((e[0], unhx(e[1:])))
@@ -96,6 +100,9 @@ def wf(ast):
                 return False
         elif k == "E":
             if not v or not all(isdig(c) for c in v) or len(v) > 9:
+                return False
+        elif k == "S":
+            if i != len(segs) - 1:          # '*' only as the last segment (star_wf)
                 return False
         else:
             if not v or any(c in b"\0,}" for a in v for c in a):
@@ -124,14 +131,7 @@ def enum_delimited(ast):
     return True
 
 def addr_ok(addr):
-    if b"\0" in addr or b":" in addr:
-        return False
-    run = 0
-    for c in addr:
-        run = run + 1 if isdig(c) else 0
-        if run > 9:
-            return False
-    return True
+    return b"\0" not in addr and b":" not in addr
 
 # ---- the Spec, by backtracking over every choice the text allows ------------
 def spell_ends(segs, addr, pos=0, i=0):
@@ -143,6 +143,12 @@ def spell_ends(segs, addr, pos=0, i=0):
     if k == "L":
         if addr.startswith(v, pos):
             out |= spell_ends(segs, addr, pos + len(v), i + 1)
+    elif k == "S":                      # any text without '/'
+        e = pos
+        out |= spell_ends(segs, addr, e, i + 1)
+        while e < len(addr) and addr[e] != 47:
+            e += 1
+            out |= spell_ends(segs, addr, e, i + 1)
     elif k == "E":
         n = int(v)
         e = pos
@@ -320,6 +326,10 @@ def classify(case, impl, failure):
         return None
     f = case.split(" ")
     ast = dec_ast(f[4] if f[0] == "one" else f[6])
+    if ast[0] and ast[0][-1][0] == "S" and not ast[1] and ast[2] is None:
+        return "star-at-end"
+    if ast[0] and ast[0][-1][0] == "S" and len(ast[0]) >= 2 and ast[0][-2][0] == "E":
+        return "enum-then-digit"
     if not alts_prefix_free(ast):
         return "alt-not-prefix-free"
     if not enum_delimited(ast):
@@ -387,12 +397,14 @@ def rnd_ast(rng):
                     a = rnd_str(rng, b"abcxyz01/#", 0 if rng.random() < 0.1 else 1, 4)
                 alts.append(a)
             segs.append(("A", alts))
+    if rng.random() < 0.12:
+        segs.append(("S", b""))            # '*' (outside the documented form), last segment only
     sub = rng.random() < 0.4
     types = rng.choice(TSPECS + [[b"ifs", b"if", b"i"], [b"T", b"F"], [b"ssss"]])
     ast = (segs, sub, types)
     if not sub and segs[-1][0] == "L" and segs[-1][1].endswith(b"/"):
         segs[-1] = ("L", segs[-1][1] + b"e")
-    return ast
+    return (segs, sub, types)
 
 def rnd_spelling(rng, ast):
     """an address built from the pattern (mostly matching), as a list of pieces"""
@@ -402,13 +414,18 @@ def rnd_spelling(rng, ast):
             out.append(v)
         elif k == "A":
             out.append(rng.choice(v))
+        elif k == "S":
+            out.append(rnd_str(rng, b"abcx1_", 0, 3))
         else:
             n = int(v)
             x = rng.choice([0, n - 1, n - 1, n, n + 1, n // 2, rng.randint(0, max(0, n - 1))])
             x = max(0, min(x, 999999999))
+            if rng.random() < 0.12:         # more than 9 digits: 2^32 + small, 2^64 + small, ...
+                x = rng.choice([2 ** 32, 2 ** 32 + 1, 2 ** 32 + n - 1, 2 ** 31, 2 ** 63, 2 ** 64, 2 ** 64 + 1,
+                                10 ** 10, 10 ** 19, 10 ** 20 + 1, 4294967295, 4294967290 + rng.randrange(10)])
             s = str(x).encode()
             if rng.random() < 0.3:
-                s = s.rjust(min(9, len(s) + rng.randint(1, 4)), b"0")
+                s = s.rjust(len(s) + rng.randint(1, 4), b"0")
             out.append(s)
     if ast[1]:
         out.append(b"/")
